@@ -441,6 +441,134 @@ fn simpler_orders(p: &[usize]) -> Vec<Vec<usize>> {
     v
 }
 
+
+// ------------------------------------------------------------------ identifier canonicalisation
+
+const NO_RENAME: [&str; 48] = [
+    "and", "break", "do", "else", "elseif", "end", "false", "for", "function", "goto", "if", "in", "local", "nil", "not", "or", "repeat", "return", "then", "true", "until", "while",
+    "integer", "string", "boolean", "number", "table", "any", "unknown", "fun", "self", "require", "setmetatable", "__index", "pairs", "ipairs", "print", "partial", "key", "public", "private", "protected",
+    "add", "unm", "call", "sub", "mul", "concat",
+];
+
+fn is_ident_start(c: char) -> bool {
+    c.is_ascii_alphabetic() || c == '_'
+}
+fn is_ident_char(c: char) -> bool {
+    c.is_ascii_alphanumeric() || c == '_'
+}
+
+/// (byte range, identifier, structural?) for every identifier token of `text` outside double-quoted
+/// strings; "structural" = in code, or in the declaration part (not the description) of a doc line
+fn ident_tokens(text: &str) -> Vec<(usize, usize, bool)> {
+    let mut out = Vec::new();
+    let mut off = 0usize;
+    for line in text.split_inclusive('\n') {
+        let trimmed = line.trim_start();
+        let is_doc = trimmed.starts_with("---");
+        // word index bookkeeping for doc lines
+        let tag: Option<&str> = if is_doc { trimmed.strip_prefix("---@").map(|r| r.split(|c: char| !is_ident_char(c)).next().unwrap_or("")) } else { None };
+        let bytes: Vec<(usize, char)> = line.char_indices().collect();
+        let mut i = 0;
+        let mut in_str = false;
+        let mut word_idx: i32 = -1; // index of the current whitespace-separated word after the tag word
+        let mut seen_tag_word = false;
+        let mut prev_word_end_colon = false;
+        let mut cur_word_start_struct = true;
+        let mut prev_was_space = true;
+        let mut desc_started = false;
+        while i < bytes.len() {
+            let (bi, c) = bytes[i];
+            if c == '"' {
+                in_str = !in_str;
+            }
+            if is_doc && !c.is_whitespace() && prev_was_space {
+                // a new word starts
+                if !seen_tag_word {
+                    seen_tag_word = true;
+                } else {
+                    word_idx += 1;
+                    let word: String = bytes[i..].iter().map(|x| x.1).take_while(|c| !c.is_whitespace()).collect();
+                    let structural = match tag {
+                        Some("class") => word_idx == 0 || word == ":" || prev_word_end_colon,
+                        Some("field") => word_idx <= 1,
+                        Some(_) => true,
+                        None => false, // plain `--- text` description line
+                    };
+                    if !structural {
+                        desc_started = true;
+                    }
+                    cur_word_start_struct = structural && !desc_started;
+                    prev_word_end_colon = word.ends_with(':') || word.ends_with(',') || word == ":";
+                }
+            }
+            prev_was_space = c.is_whitespace();
+            if !in_str && is_ident_start(c) && (i == 0 || !is_ident_char(bytes[i - 1].1)) {
+                let mut j = i;
+                while j < bytes.len() && is_ident_char(bytes[j].1) {
+                    j += 1;
+                }
+                let end = if j < bytes.len() { bytes[j].0 } else { line.len() };
+                let after_at = i > 0 && bytes[i - 1].1 == '@';
+                if !after_at {
+                    let structural = if is_doc { seen_tag_word && word_idx >= 0 && cur_word_start_struct } else { true };
+                    out.push((off + bi, off + end, structural));
+                }
+                i = j;
+                continue;
+            }
+            i += 1;
+        }
+        off += line.len();
+    }
+    out
+}
+
+fn rename_ident(case: &Case, from: &str, to: &str) -> Case {
+    let mut c = case.clone();
+    for vs in c.texts.values_mut() {
+        for t in vs.iter_mut() {
+            let toks = ident_tokens(t);
+            let mut out = String::with_capacity(t.len());
+            let mut last = 0;
+            for (s, e, structural) in toks {
+                // description words keep their text
+                if structural && &t[s..e] == from {
+                    out.push_str(&t[last..s]);
+                    out.push_str(to);
+                    last = e;
+                }
+            }
+            out.push_str(&t[last..]);
+            *t = out;
+        }
+    }
+    c
+}
+
+/// identifiers that may be renamed, in order of first appearance
+fn renameable_idents(case: &Case) -> (Vec<String>, BTreeSet<String>) {
+    let mut order = Vec::new();
+    let mut all = BTreeSet::new();
+    let mut structural = BTreeSet::new();
+    for vs in case.texts.values() {
+        for t in vs {
+            for (s, e, st) in ident_tokens(t) {
+                let id = t[s..e].to_string();
+                if st {
+                    structural.insert(id.clone());
+                }
+                if all.insert(id.clone()) {
+                    order.push(id);
+                }
+            }
+        }
+    }
+    let order = order.into_iter().filter(|id| structural.contains(id) && !NO_RENAME.contains(&id.as_str())).collect();
+    (order, all)
+}
+
+const LOWER_POOL: [&str; 8] = ["a", "b", "c", "d", "e", "f", "g", "h"];
+
 /// Greedy delta minimisation over the engine's own vocabulary: shorten the history, drop files,
 /// reset seam orders and configs, then delete lines of every file variant. `fails` must include
 /// the validity check of the property.
@@ -653,6 +781,68 @@ pub fn minimise(case: &Case, fails: &dyn Fn(&Case) -> bool, budget: &mut usize) 
                 }
             }
         }
+        // 6b. the leading single loads (and a reindex after them) become one batch load
+        {
+            let mut k = 0;
+            let mut seen: Vec<String> = Vec::new();
+            while k < cur.ops.len() {
+                match &cur.ops[k] {
+                    Op::Set { f, .. } if !seen.contains(f) => {
+                        seen.push(f.clone());
+                        k += 1;
+                    }
+                    _ => break,
+                }
+            }
+            if k >= 2 {
+                let items: Vec<(String, Option<usize>)> = cur.ops[..k].iter().filter_map(|o| if let Op::Set { f, v } = o { Some((f.clone(), Some(*v))) } else { None }).collect();
+                let mut cand = cur.clone();
+                cand.ops.splice(0..k, [Op::Batch { items, order: None, rorder: None }]);
+                if try_it(&cand, budget) {
+                    cur = cand;
+                    progressed = true;
+                }
+            }
+        }
+        // 6b'. the first batch load lists its files in path order
+        if let Some(Op::Batch { items, order: None, rorder: None }) = cur.ops.first().cloned() {
+            let mut sorted = items.clone();
+            sorted.sort();
+            if sorted != items {
+                let mut cand = cur.clone();
+                cand.ops[0] = Op::Batch { items: sorted, order: None, rorder: None };
+                if try_it(&cand, budget) {
+                    cur = cand;
+                    progressed = true;
+                }
+            }
+        }
+        // 6c. canonical identifier names (variables, fields, type names), simplest first
+        {
+            let (order, _) = renameable_idents(&cur);
+            for id in order {
+                let (_, used) = renameable_idents(&cur);
+                if !used.contains(&id) {
+                    continue;
+                }
+                let pool: &[&str] = &LOWER_POOL;
+                let rank = pool.iter().position(|p| *p == id).unwrap_or(usize::MAX);
+                for (pi, p) in pool.iter().enumerate() {
+                    if pi >= rank {
+                        break;
+                    }
+                    if used.contains(*p) {
+                        continue;
+                    }
+                    let cand = rename_ident(&cur, &id, p);
+                    if try_it(&cand, budget) {
+                        cur = cand;
+                        progressed = true;
+                        break;
+                    }
+                }
+            }
+        }
         // 7. swap two files (and the module names they are required by) when that gives a smaller case
         let files: Vec<String> = cur.texts.keys().cloned().collect();
         for i in 0..files.len() {
@@ -674,9 +864,28 @@ pub fn minimise(case: &Case, fails: &dyn Fn(&Case) -> bool, budget: &mut usize) 
 
 // ------------------------------------------------------------------ "explained by" test
 
+/// a line with every renameable identifier replaced by `_` (witnesses carry canonical names)
+fn mask_line(l: &str) -> String {
+    let mut out = String::with_capacity(l.len());
+    let mut last = 0;
+    for (s, e, _) in ident_tokens(l) {
+        if !NO_RENAME.contains(&&l[s..e]) {
+            out.push_str(&l[last..s]);
+            out.push('_');
+            last = e;
+        }
+    }
+    out.push_str(&l[last..]);
+    out
+}
+
 fn is_subsequence(small: &[&str], big: &[&str]) -> bool {
+    let big: Vec<String> = big.iter().map(|l| mask_line(l)).collect();
     let mut it = big.iter();
-    small.iter().all(|x| it.any(|y| y == x))
+    small.iter().all(|x| {
+        let m = mask_line(x);
+        it.any(|y| *y == m)
+    })
 }
 
 #[derive(Clone, Debug)]
